@@ -30,7 +30,7 @@ var c03ImplVariants = []implVariant{
 	{"Sensor", []string{"base", "logging"}, []string{"record", "read"}},
 }
 
-const nImplStyles = 6
+const nImplStyles = 8
 
 func c03ImplsCase(tier string, idx int) *c03Case {
 	d := radix(idx, nImplStyles, len(c03ImplVariants))
@@ -91,6 +91,16 @@ func c03ImplsCase(tier string, idx int) *c03Case {
 	if style == 5 { // the singleton is also used directly and extracted by a plain function
 		calls = append(calls, hs.Println(hs.Mem(&hs.Single{Name: "Dev"}, "name")), hs.ES(hs.CallN("peek")))
 		p.Funcs = append(p.Funcs, hs.Fn("peek", nil, hs.Blk(nil, hs.Println(hs.Mem(hs.V("d"), "level"))), hs.Param{Name: "d", Single: "Dev"}))
+	}
+	if style == 6 || style == 7 {
+		// a function that extracts the singleton (and takes one ordinary argument), called through a
+		// value that holds it: the extraction is not an argument, whatever way the function is reached
+		p.Funcs = append(p.Funcs, hs.Fn("bump", hs.TInt, hs.Blk(hs.Bin("+", hs.Mem(hs.V("d"), "level"), hs.V("by"))), hs.Param{Name: "d", Single: "Dev"}, hs.P("by", hs.TInt)))
+		calls = append(calls, hs.LetS("handle", hs.V("bump")), hs.LetT("r1", hs.TInt, hs.CallN("handle", hs.I(2))), use("r1"))
+		if style == 7 {
+			// ... and handed on once more, and called directly in between
+			calls = append(calls, hs.LetS("again", hs.V("handle")), hs.LetT("r2", hs.TInt, hs.CallN("bump", hs.I(1))), use("r2"), hs.LetT("r3", hs.TInt, hs.CallN("again", hs.CallN("handle", hs.I(3)))), use("r3"))
+		}
 	}
 	p.Funcs = append([]*hs.Func{mainFn(calls...)}, p.Funcs...)
 	return single(p, tags...)
